@@ -94,3 +94,13 @@ func CrashTruncating(point string, dir string) {
 	})
 	os.Exit(97)
 }
+
+// JSONConsumerFn, when set, is called by the consumer of a JSON file right after it has taken a parsed batch from its
+// output channel and released the batch's token (firstLine = line number of the first row of the batch).
+var JSONConsumerFn func(firstLine int, lines int)
+
+func JSONConsumer(firstLine int, lines int) {
+	if JSONConsumerFn != nil {
+		JSONConsumerFn(firstLine, lines)
+	}
+}
